@@ -78,8 +78,11 @@ static void debugger (void *a) {
 	int k;
 	char buf[160];
 	for (k = 0; k < 8; k++) {
-		if (vrt_rand (4)) nsync_mu_debug_state_and_waiters (&mu, buf, (int) sizeof (buf));
+		int full = vrt_rand (4) != 0;
+		vrt_observer_begin (buf, sizeof (buf));     /* C16: from here to _end this thread may write (plainly) only into buf */
+		if (full) nsync_mu_debug_state_and_waiters (&mu, buf, (int) sizeof (buf));
 		else nsync_mu_debug_state (&mu, buf, (int) sizeof (buf));
+		vrt_observer_end ();
 		vrt_count ("debug_call");
 	}
 }
